@@ -1,5 +1,5 @@
 """A fresh interpreter in which the host tables ARE Darwin's before the package under test is imported:
-   python -m kdv.hostproc [host|darwin] [stream|fresh|search]   (stdin: one JSON object per line; stdout: one JSON answer per line)
+   python -m kdv.hostproc [host|darwin|scrambled] [stream|fresh|search]   (stdin: one JSON object per line; stdout: one JSON answer per line)
 An in-process swap of the objects a handler module imported cannot see a table captured at import time (a module-level
 tuple or dict built from errno.errorcode); replacing the tables before the import can."""
 import enum
@@ -21,6 +21,45 @@ def install_darwin():
     socket.SOL_SOCKET = DARWIN_SOL
 
 
+def install_scramble():
+    """Another host in every respect EXCEPT the five tables the known host readers consult (errno.errorcode, Signals,
+    AddressFamily, SocketKind, SOL_SOCKET stay as they are): the plain integer constants of the modules that describe the
+    platform are rotated within their name prefix (IPPROTO_*, O_*, E*, SIG*, MSG_*, …), the message functions answer
+    differently, the platform names differ.  A rendering that changes under it reads something of the host that is not one
+    of the known tables."""
+    import importlib
+    import os
+    import platform
+    for modname in ('socket', 'errno', 'signal', 'os', 'stat', 'fcntl', 'select', 'resource', 'termios', 'mmap', 'posix',
+                    '_socket', 'tty', 'syslog', 'locale'):
+        try:
+            mod = importlib.import_module(modname)
+        except Exception:
+            continue
+        groups = {}
+        for name, val in list(vars(mod).items()):
+            if not name[:1].isupper() or name != name.upper() or type(val) is not int:
+                continue
+            if modname in ('socket', '_socket') and name == 'SOL_SOCKET':
+                continue
+            prefix = name.split('_')[0] if '_' in name else name[:1]
+            groups.setdefault(prefix, []).append(name)
+        for names in groups.values():
+            names.sort()
+            vals = [getattr(mod, n) for n in names]
+            if len(set(vals)) < 2:
+                continue
+            for n, v in zip(names, vals[1:] + vals[:1]):
+                try:
+                    setattr(mod, n, v)
+                except Exception:
+                    pass
+    os.strerror = lambda code: 'host message %d' % code
+    signal.strsignal = lambda code: 'host signal %d' % code
+    platform.system = lambda: 'Darwin' if platform.uname().system != 'Darwin' else 'Linux'
+    platform.machine = lambda: 'scrambled'
+
+
 def main():
     """argv: [host|darwin] [stream|fresh|search]
     stream - one decoder case per line, rendered one after the other in this interpreter (the first line is rendered first
@@ -29,7 +68,9 @@ def main():
     search - one request per line for kdv.neighbours.search (history dependence of renderings)."""
     host = sys.argv[1] if len(sys.argv) > 1 else 'darwin'
     mode = sys.argv[2] if len(sys.argv) > 2 else 'stream'
-    if host != 'host':
+    if host == 'scrambled':
+        install_scramble()
+    elif host != 'host':
         install_darwin()
     from . import core
     from . import decoders as D
